@@ -506,6 +506,7 @@ class Tape:
                 an = cot[i].ravel()[j]
                 if not np.isfinite(fd) or not np.isfinite(an):
                     continue
-                if abs(fd - an) > atol + rtol * max(abs(fd), abs(an)):
+                cancel = 8 * 2.2e-16 * max(abs(fp), abs(fm), 1.0) / h  # rounding of f(x+h)-f(x-h)
+                if abs(fd - an) > atol + cancel + rtol * max(abs(fd), abs(an)):
                     problems.append((i, j, float(fd), float(an)))
         return problems
